@@ -213,66 +213,12 @@ func genCallCase(t *rapid.T) CallCase {
 	for i, ti := range c.In {
 		fixedT[i] = Pool[ti].T
 	}
-	switch {
-	case c.VarElem < 0 && !c.HasSpread:
-		n := nFixed + delta
-		for i := 0; i < n; i++ {
-			if i < nFixed {
-				c.Args = append(c.Args, genSVFor(t, fixedT[i], 2))
-			} else {
-				c.Args = append(c.Args, genSV(t, 1))
-			}
-		}
-	case c.VarElem >= 0 && !c.HasSpread:
-		for i := 0; i < nFixed; i++ {
-			c.Args = append(c.Args, genSVFor(t, fixedT[i], 2))
-		}
-		if delta < 0 && nFixed > 0 {
-			c.Args = c.Args[:nFixed-1]
-			break
-		}
-		nt := rapid.IntRange(0, 3).Draw(t, "ntail")
-		for i := 0; i < nt; i++ {
-			c.Args = append(c.Args, genSVFor(t, Pool[c.VarElem].T, 2))
-		}
-	case c.VarElem < 0 && c.HasSpread:
-		maxPlain := nFixed
-		if nFixed > 0 && rapid.IntRange(0, 9).Draw(t, "fullplain") > 0 {
-			maxPlain = nFixed - 1 // leave at least one parameter to the spread list
-		}
-		m := rapid.IntRange(0, maxPlain).Draw(t, "nplain")
-		for i := 0; i < m; i++ {
-			c.Args = append(c.Args, genSVFor(t, fixedT[i], 2))
-		}
-		sk := rapid.IntRange(0, 19).Draw(t, "spreadkind")
-		switch {
-		case sk == 0:
-			c.Spread = genSV(t, 1) // often not a list
-		case sk < 4:
-			c.Spread = genGo(t, goSlices) // a typed Go slice or array
-		default:
-			sp := SV{K: "l", L: []SV{}}
-			n := nFixed - m + delta
-			for i := 0; i < n; i++ {
-				if m+i < nFixed {
-					sp.L = append(sp.L, genSVFor(t, fixedT[m+i], 1))
-				} else {
-					sp.L = append(sp.L, genSV(t, 1))
-				}
-			}
-			c.Spread = sp
-		}
-	default:
-		m := nFixed + delta
-		for i := 0; i < m; i++ {
-			if i < nFixed {
-				c.Args = append(c.Args, genSVFor(t, fixedT[i], 2))
-			} else {
-				c.Args = append(c.Args, genSV(t, 1))
-			}
-		}
-		c.Spread = genSVFor(t, reflect.SliceOf(Pool[c.VarElem].T), 2)
+	var varT reflect.Type
+	if c.VarElem >= 0 {
+		varT = Pool[c.VarElem].T
 	}
+	as := genArgs(t, fixedT, varT, c.HasSpread, delta)
+	c.Args, c.Spread = as.Args, as.Spread
 	return c
 }
 
@@ -366,6 +312,10 @@ func callOracle(c CallCase, o *h.Obs) *h.Fail {
 		o.Class("conv:" + cell)
 	}
 
+	if p.nilPtr && knownNilPtrPanic {
+		o.Excluded = "nil_pointer_retyping"
+		return nil
+	}
 	e := env.NewEnv()
 	e.Define("f", rec.fn(ft).Interface())
 	defineAll(e, b)
@@ -440,7 +390,11 @@ func TestC11(t *testing.T) {
 	c := h.New(t, "C11")
 	defer c.Finish()
 	c.Rule("identity: Go pool value (46 types x seeds) bound to x and read back through 0-4 of: list element, map member/index, Go id(x), Go variadic idv, script identity functions (fixed, 2-ary, variadic, list-returning), variable, multi-assignment, ternary, parentheses; non-trivial = at least one step; distinct by (type, seed, source)")
-	h.Run(c, "identity", c.N(6000, 40000), genIdCase, idOracle)
+	h.Run(c, "identity", c.N(25000, 100000), genIdCase, idOracle)
 	c.Rule("calls: reflect.FuncOf signature over the pool (0-4 fixed parameters, optional variadic tail, 0-3 results) with a recording MakeFunc host; arguments are script literals (int, float, string, bool, nil, list, map) or bound Go pool values, aimed at the parameter types 87% of the time; shapes fixed/variadic x plain/spread, 20% wrong counts; non-trivial = some argument needs a non-identity conversion or the function is variadic or the call spreads or there are >= 2 results; distinct by (signature, source, bound values)")
-	h.Run(c, "calls", c.N(15000, 80000), genCallCase, callOracle)
+	h.Run(c, "calls", c.N(100000, 400000), genCallCase, callOracle)
+	c.Rule("members: struct pool value S reached by value, by pointer, as addressable slice element, as map value, inside a script list, through a pointer field; field read, field write (value aimed at the field type), method call (8 value-receiver and 4 pointer-receiver methods incl. variadic and multi-result, arguments as in calls, also through a bound method value), unknown member; reference = Go's own field access / method call on a copy with goConvert'ed parameters; non-trivial = everything except a plain field read on a by-value receiver")
+	h.Run(c, "members", c.N(40000, 160000), genMemCase, memOracle)
+	c.Rule("callbacks: script function (fixed arity, variadic, wrong arity) passed where a MakeFunc host expects func(T1..Tn)(R1..Rm), n<=3, m<=2; host invokes it 1-2 times with pool values; the function reports its parameters to a Go recorder and returns literals / its own parameters / wrong counts, throws or hits a runtime error; with and without try/catch around the enclosing call; all cases non-trivial")
+	h.Run(c, "callbacks", c.N(40000, 160000), genCbCase, cbOracle)
 }
